@@ -122,20 +122,38 @@ theorem close_never_waits_for_holders (p : Params) (b : Behaviour) (s : State) (
 against an agent with a descendant that inherited its standard error (and a
 stream created with a receiver). Erase the descendant's and the copier's
 steps: what remains is a run of Close against the same agent *without* a
-descendant and without a receiver, and it ends in a state with the same time,
+descendant, without a receiver and without a pending `Write`, and it ends in a state with the same time,
 stage, timer, agent fate and — in particular — the same return. So everything
 proved about the ladder (when and in which stage Close returns, that it
 returns, that the agent has exited) holds verbatim in the presence of other
 holders. -/
 theorem holders_do_not_matter (p : Params) (b : Behaviour) (s : State) (as : List Action)
     (hr : run p b (init p b) as = some s) :
-    ∃ t, run { p with recv := false } { b with holder := false }
-        (init { p with recv := false } { b with holder := false }) (as.filter isLadder) = some t ∧
+    ∃ t, run { p with recv := false, writer := false } { b with holder := false }
+        (init { p with recv := false, writer := false } { b with holder := false }) (as.filter isLadder) = some t ∧
       t.returned = s.returned ∧ t.stage = s.stage ∧ t.now = s.now ∧ t.alive = s.alive ∧
       t.waited = s.waited := by
   have h1 := run_core_filter p b (init p b) s as hr
-  rw [run_params p { p with recv := false } b { b with holder := false } _ _ rfl rfl rfl rfl rfl] at h1
+  rw [run_params p { p with recv := false, writer := false } b { b with holder := false } _ _ rfl rfl rfl rfl rfl] at h1
   exact ⟨core s, h1, rfl, rfl, rfl, rfl, rfl⟩
+
+/-! ### A pending `Write` -/
+
+/-- **Close never waits for a blocked writer** either: `close_never_waits_for_holders`
+and `holders_do_not_matter` are proved for states and runs in which a `Write` is
+blocked (`Params.writer`); no ladder step reads `writerBlocked` (`step_core`).
+Conversely **Close unblocks the writer**: once standard input has been closed
+(any stage after `wait`) or the agent has been waited for, no `Write` is
+blocked. -/
+theorem writer_unblocked_by_close (p : Params) (b : Behaviour) (s : State) (hs : Reachable p b s)
+    (h : s.stage ≠ .wait ∨ s.waited = true) : s.writerBlocked = false := by
+  obtain ⟨as, hr⟩ := hs
+  exact writer_run p b (init p b) s as (writer_init p b) hr h
+
+/-- In particular the pending `Write` has been released by the time Close returns. -/
+theorem writer_unblocked_on_return (p : Params) (b : Behaviour) (s : State) (hs : Reachable p b s)
+    (k : Stage) (t : Nat) (hr : s.returned = some (k, t)) : s.writerBlocked = false :=
+  writer_unblocked_by_close p b s hs (Or.inr ((inv_reachable p b s hs).returned k t hr).2.2)
 
 /-! ### The four behaviour classes (each for arbitrary delays) -/
 
@@ -225,21 +243,21 @@ theorem outcomes_sound (p : Params) (b : Behaviour) (fuel : Nat) (s : State) (r 
 
 /-- An agent that reacts to nothing is killed: Close returns in stage `kill`. -/
 example :
-    ((run ⟨800, 1000, 1000, false⟩ ⟨none, none, none, 5, false⟩ (init ⟨800, 1000, 1000, false⟩ ⟨none, none, none, 5, false⟩)
+    ((run ⟨800, 1000, 1000, false, false⟩ ⟨none, none, none, 5, false⟩ (init ⟨800, 1000, 1000, false, false⟩ ⟨none, none, none, 5, false⟩)
       [.tick 800, .fire, .tick 1000, .fire, .tick 1000, .fire, .tick 5, .procExit, .recv]).map
       fun s => (s.returned, s.alive)) = some (some (.kill, 2805), false) := by
   decide
 
 /-- An agent that exits 100 ms after its input closes: stage `stdin`. -/
 example :
-    ((run ⟨800, 1000, 1000, false⟩ ⟨none, some 100, none, 5, false⟩ (init ⟨800, 1000, 1000, false⟩ ⟨none, some 100, none, 5, false⟩)
+    ((run ⟨800, 1000, 1000, false, false⟩ ⟨none, some 100, none, 5, false⟩ (init ⟨800, 1000, 1000, false, false⟩ ⟨none, some 100, none, 5, false⟩)
       [.tick 800, .fire, .tick 100, .procExit, .recv]).map
       fun s => s.returned) = some (some (.stdin, 900)) := by
   decide
 
 /-- A tie (exit exactly at the termination delay): both stages are possible. -/
 example :
-    ((outcomes ⟨800, 1000, 1000, false⟩ ⟨some 800, none, none, 5, false⟩ 32 (init ⟨800, 1000, 1000, false⟩ ⟨some 800, none, none, 5, false⟩)).map
+    ((outcomes ⟨800, 1000, 1000, false, false⟩ ⟨some 800, none, none, 5, false⟩ 32 (init ⟨800, 1000, 1000, false, false⟩ ⟨some 800, none, none, 5, false⟩)).map
       fun r => r.1) = [.wait, .stdin] := by
   decide
 
@@ -248,10 +266,22 @@ example :
 stage at the same time, the agent has been waited for, and the descendant is
 still holding the pipe when it does. -/
 example :
-    ((run ⟨0, 1000, 1000, true⟩ ⟨none, some 100, none, 5, true⟩
-        (init ⟨0, 1000, 1000, true⟩ ⟨none, some 100, none, 5, true⟩)
+    ((run ⟨0, 1000, 1000, true, false⟩ ⟨none, some 100, none, 5, true⟩
+        (init ⟨0, 1000, 1000, true, false⟩ ⟨none, some 100, none, 5, true⟩)
       [.fire, .tick 100, .procExit, .copyEnd, .recv]).map
       fun s => (s.returned, s.alive, s.helper, s.copyDone)) = some (some (.stdin, 100), false, true, true) := by
+  decide
+
+/-- A `Write` is blocked, the agent ignores everything: the first escalation
+releases the writer, Close goes on to SIGTERM and SIGKILL and returns. -/
+example :
+    ((run ⟨0, 1000, 1000, false, true⟩ ⟨none, none, none, 5, false⟩
+        (init ⟨0, 1000, 1000, false, true⟩ ⟨none, none, none, 5, false⟩)
+      [.fire]).map fun s => (s.stage, s.writerBlocked)) = some (.stdin, false) ∧
+    ((run ⟨0, 1000, 1000, false, true⟩ ⟨none, none, none, 5, false⟩
+        (init ⟨0, 1000, 1000, false, true⟩ ⟨none, none, none, 5, false⟩)
+      [.fire, .tick 1000, .fire, .tick 1000, .fire, .tick 5, .procExit, .recv]).map
+      fun s => s.returned) = some (some (.kill, 2005)) := by
   decide
 
 end Mutagen.Properties.C35
